@@ -51,6 +51,9 @@ pub fn selector_text(sel: &Value, r: &mut Rng, vary: bool) -> String {
         }
         s.push_str(&compound_text(c, r, vary));
     }
+    if let Some(pe) = sel.as_array().and_then(|a| a.last()).and_then(|c| c.get("pe")).and_then(|p| p.as_str()) {
+        if !pe.is_empty() { s.push_str("::"); s.push_str(pe); }
+    }
     s
 }
 /// A CSS comment (bodies with stars, slashes, braces, rule-like text and newlines).
@@ -67,6 +70,7 @@ pub fn decl_text(d: &Value, r: &mut Rng, vary: bool) -> String {
             ((if prop == "color" { "color" } else { "background-color" }).to_string(), v)
         }
         "display" => ("display".to_string(), d["val"].as_str().unwrap_or("none").to_string()),
+        "content" => { let t = crate::concretize::cells_to_string(&d["val"]); ("content".to_string(), if vary && r.chance(1, 2) { format!("'{}'", t) } else { format!("\"{}\"", t) }) }
         "height" => ((if vary && r.chance(1, 3) { "max-height" } else { "height" }).to_string(), if vary && r.chance(1, 2) { "0px".into() } else { "0".into() }),
         "overflow" => ((if vary && r.chance(1, 3) { "overflow-y" } else { "overflow" }).to_string(), "hidden".to_string()),
         "ws" => ("white-space".to_string(), match d["val"].as_str().unwrap_or("") { "Pre" => "pre", "PreWrap" => "pre-wrap", _ => "normal" }.to_string()),
@@ -105,6 +109,7 @@ pub fn sheet_text(sheet: &Value, r: &mut Rng, v: &Vary) -> String {
     }
     s
 }
+pub fn content_decl(text: &str, imp: bool) -> Value { json!({"prop": "content", "val": text.chars().map(|c| json!([c as u32, 1])).collect::<Vec<_>>(), "imp": imp}) }
 pub fn canonical() -> Vary { Vary { on: false, drop_semi: false, double_semi: false, junk: false, unknown_props: false } }
 pub fn style_attr_text(decls: &[Value]) -> String {
     decls.iter().map(|d| {
@@ -154,3 +159,5 @@ impl CssDoc {
     pub fn body(&mut self, r: &mut Rng) -> Vec<N> { let n = r.range(1, 3); (0..n).map(|_| self.element(r, 0, "body")).collect() }
 }
 pub fn colour(r: &mut Rng, k: u64) -> Value { json!([16 * (k % 16), 255 - (r.below(8) * 8), k]) }
+/// a colour determined by k alone (so that the same k gives the same colour again)
+pub fn colour_k(k: u64) -> Value { json!([16 * (k % 16), 255 - 8 * (k % 8), k % 256]) }
